@@ -343,8 +343,9 @@ def r09_6(ctx, rep):
     sets = {st.targets[0].id for st in ast.walk(fn) if isinstance(st, ast.Assign) and isinstance(st.targets[0], ast.Name) and isinstance(st.value, ast.Call)
             and isinstance(st.value.func, ast.Attribute) and st.value.func.attr in ("get", "setdefault", "pop")}
     sets |= {st.targets[0].id for st in ast.walk(fn) if isinstance(st, ast.Assign) and isinstance(st.targets[0], ast.Name) and isinstance(st.value, ast.Name) and st.value.id in sets}
-    if len(sets) < 2:
-        raise MechanismMissing(R, "fewer than 2 locals fetched from the connection tables")
+    fetches = [c for c in calls(fn) if isinstance(c.func, ast.Attribute) and c.func.attr in ("get", "setdefault") and "connections" in norm(c.func.value)]
+    if len(sets) < 1 or len(fetches) < 2:
+        raise MechanismMissing(R, "fewer than 2 fetches from the connection tables (or no local holding a fetched set)")
     bad = []
     for c in calls(fn):
         if isinstance(c.func, ast.Attribute) and isinstance(c.func.value, ast.Name) and c.func.value.id in sets and c.func.attr in ("clear", "pop", "popitem", "remove", "discard", "difference_update"):
